@@ -276,3 +276,90 @@ func moduleVersion(p *packages.Package) string {
 	}
 	return "?"
 }
+
+// GorootWorld is a set of type-checked packages of a Go toolchain's own source.
+type GorootWorld struct {
+	Goroot string
+	Fset   *token.FileSet
+	Roots  []*packages.Package
+	All    map[string]*packages.Package
+}
+
+// LoadGoroot type-checks packages of the given GOROOT from source (with the
+// go command of that GOROOT, so that build constraints and vendoring are its own).
+func LoadGoroot(goroot string, cfg BuildConfig, mode packages.LoadMode, patterns ...string) (*GorootWorld, error) {
+	fset := token.NewFileSet()
+	env := loaderEnv(goroot, cfg)
+	// std/cmd are loaded without -mod=mod
+	for i, kv := range env {
+		if strings.HasPrefix(kv, "GOFLAGS=") {
+			env[i] = "GOFLAGS="
+		}
+	}
+	pcfg := &packages.Config{Mode: mode, Dir: filepath.Join(goroot, "src"), Fset: fset, Env: env}
+	if cfg.Tags != "" {
+		pcfg.BuildFlags = []string{"-tags=" + cfg.Tags}
+	}
+	// the driver runs "go" from PATH: point it at this GOROOT for the call
+	oldPath := os.Getenv("PATH")
+	os.Setenv("PATH", filepath.Join(goroot, "bin")+":"+oldPath)
+	defer os.Setenv("PATH", oldPath)
+	roots, err := packages.Load(pcfg, patterns...)
+	if err != nil {
+		return nil, fmt.Errorf("loading %v from %s: %v", patterns, goroot, err)
+	}
+	g := &GorootWorld{Goroot: goroot, Fset: fset, Roots: roots, All: map[string]*packages.Package{}}
+	var errs []string
+	packages.Visit(roots, nil, func(p *packages.Package) {
+		g.All[p.PkgPath] = p
+		for _, e := range p.Errors {
+			errs = append(errs, e.Error())
+		}
+	})
+	if len(errs) > 0 {
+		if len(errs) > 5 {
+			errs = errs[:5]
+		}
+		return nil, fmt.Errorf("errors loading %v from %s:\n  %s", patterns, goroot, strings.Join(errs, "\n  "))
+	}
+	for _, r := range roots {
+		if !strings.HasPrefix(r.GoFiles[0], goroot) {
+			return nil, fmt.Errorf("package %s was loaded from %s, not from %s: the loader picked up another toolchain", r.PkgPath, r.GoFiles[0], goroot)
+		}
+	}
+	return g, nil
+}
+
+func (g *GorootWorld) Pos(p token.Pos) string {
+	if !p.IsValid() {
+		return ""
+	}
+	pos := g.Fset.Position(p)
+	rel, err := filepath.Rel(g.Goroot, pos.Filename)
+	if err != nil {
+		rel = pos.Filename
+	}
+	return fmt.Sprintf("GOROOT/%s:%d", rel, pos.Line)
+}
+
+// gorootsFor returns the toolchains to analyse: the one the test suite runs
+// with (go1.26.2, from the module cache) in quick, both in thorough.
+func gorootsFor(tier string) []string {
+	var out []string
+	if _, err := os.Stat(filepath.Join(goroot1262, "src", "runtime")); err == nil {
+		out = append(out, goroot1262)
+	}
+	if _, err := os.Stat(filepath.Join(goroot1268, "src", "runtime")); err == nil && (tier == "thorough" || len(out) == 0) {
+		out = append(out, goroot1268)
+	}
+	return out
+}
+
+func gorootName(goroot string) string {
+	data, err := os.ReadFile(filepath.Join(goroot, "VERSION"))
+	if err != nil {
+		return filepath.Base(goroot)
+	}
+	line, _, _ := strings.Cut(string(data), "\n")
+	return strings.TrimSpace(line)
+}
